@@ -111,6 +111,26 @@ def _write_out(out, r, name):
     out[...] = r
 
 
+def _domain(name, x, pred):
+    """Eager domain obligation for an element-wise function: pred holds for EVERY element."""
+    c = ctx()
+    if c.in_spec or c.concrete:
+        return
+    nm = "%s[%s]" % (name, c.fresh_name("dom"))
+    if _arrish(x):
+        a = as_array(x)
+        snap = a.snapshot()
+        if a.mask is not None:
+            mfn = a.mask[1]
+            S.prove(nm, S.Forall(a.shape, lambda *i: implies(mfn(*i), pred(snap(*i)))), kind="domain")
+        else:
+            S.prove(nm, S.Forall(a.shape, lambda *i: pred(snap(*i))), kind="domain")
+    else:
+        v = _as_scalar(x)
+        if is_sym(v):
+            c.oblige(nm, pred(v), kind="domain")
+
+
 class _Reduction:
     pass
 
@@ -537,22 +557,12 @@ class _NP:
     absolute = abs
 
     def sqrt(self, x):
-        def f(v):
-            c = ctx()
-            if is_sym(v) and not c.in_spec:
-                c.oblige("sqrt.domain[%s]" % c.fresh_name("sq"), _numeric(v) >= 0, kind="domain")
-            return spec_sqrt(v)
-
-        return _ew1("sqrt", f, x)
+        _domain("sqrt.domain", x, lambda v: _numeric(v) >= 0)
+        return _ew1("sqrt", spec_sqrt, x)
 
     def log(self, x):
-        def f(v):
-            c = ctx()
-            if is_sym(v) and not c.in_spec:
-                c.oblige("log.domain[%s]" % c.fresh_name("lg"), _numeric(v) > 0, kind="domain")
-            return spec_log(v)
-
-        return _ew1("log", f, x)
+        _domain("log.domain", x, lambda v: _numeric(v) > 0)
+        return _ew1("log", spec_log, x)
 
     def sin(self, x):
         return _ew1("sin", lambda v: spec_trig("sin", v), x)
